@@ -69,15 +69,15 @@ CLAIMED = {
             "DESIGN.md section 6 C10", "crash = process death with completed file-system operations persisting in order: no power-loss / write-back reordering model"),
     "C13": ("Coq proof: GENERAL theorems for every invariant state, call and fault plan (others untouched, never wrong bytes, failed store_metadata keeps the old version, the call returns with no lock left unless the flock itself fails; FaultGeneral.v) plus reflective enumeration of ALL fault sites x {one-off, persistent} of each menu scenario by the kernel, lifted to every k by run_fault_beyond (CrashFault.v, Fault13_*.v); P-trace/P-fault correspondence",
             "general: fault_others_untouched, fault_never_wrong_bytes, store_metadata_fault_intact, fault_returns_no_lock for all Inv states / calls / fault states; the literal full statement is PROVED false (persistent read failure defeats the roll-back: C13_general_statement_false = known finding D10); the 'unbound and storable again, or earlier binding intact' clause is proved on the menu: fault_safe for 77 scenarios x all sites x 2 modes except the 80 points of known13 (proved to fail: D10), one_off_all_pass, no_lock_left; implementation: OSError(EIO/ENOSPC/EACCES) injected at the same site, outcome/state/locks compared with run_fault, property oracle on the implementation.",
-            "DESIGN.md section 6 C13", "faults are OSError raised at call entry of the failing operation; short writes / EINTR are not modelled"),
+            "DESIGN.md section 6 C13", "faults are OSError raised at call entry of the failing operation (opens, renames, removes, mkdirs, file locks, and - since the last extension - every buffer write into a staging file and the append to a cid list; 83 scenarios incl. multi-buffer calls, 582 sites x 2 modes); the in-place rewrite / truncate of a cid list is not a site; reads of the caller's data source are searched on the implementation only; short writes / EINTR are not modelled"),
     "C07": ("Coq proof: reflective exhaustive exploration of ALL schedules of every menu scenario by a proved explorer (explore_sound, Sched.v; scenario_sound, Lin.v), one vm_compute per scenario; P-sched correspondence under a controlled scheduler",
             "general: (1) independence theorem - any pool of calls with pairwise disjoint footprints is linearizable under every schedule, equal to every sequential order (Indep.v); (2) mutual exclusion on every identifier and every modification of a cid reference list happens under that cid's lock, for any pool / schedule / fault pattern (Mutex.v); menu of conflicting calls: lin_pairs: 330 pairs (5 start states x 66 unordered pairs of an 11-call menu) and 245 triples of short calls, every schedule, linearizable and stored-is-retrievable, except the 27 pairs of known07 which are each PROVED to fail "
             "(D8 store vs removal of its content, D9 in-progress rejection caused by a delete; known findings); the model's witness schedule of every distinct outcome is replayed on the implementation (per-thread operation sequences, outcomes, files), "
-            "plus random schedules judged against the implementation's own sequential runs of every order.",
+            "plus random schedules, and - on scenarios whose witness replay diverges, on the wake-up families and (thorough) on every pair - a systematic preemption-bounded walk over the operations on which the calls conflict (sched.Dfs), judged against the implementation's own sequential runs of every order.",
             "DESIGN.md section 6 C07, 12.3", "preemption inside a single interposed operation, GIL switching; the menus use the semantics where an acquire of a held identifier is not enabled - SchedCV.v proves the final configurations of the faithful condition-variable semantics are among them"),
     "C08": ("Coq proof: lock discipline of every API program as a weakest precondition over all answers (faults included), rank argument for deadlock freedom, well-founded termination (Bracket.v) - general, no menu; P-fault + P-sched correspondence",
             "no_deadlock_no_leak / progress / gstep_terminates / runs_to_completion / afterwards_every_call_returns for any pool of calls, any schedule, any pattern of I/O failures (except a failing flock, covered by the C13 sweep); cv_no_lost_wakeup / cv_terminates in a semantics with REAL condition variables (one condition per list, notify wakes one arbitrary waiter, re-test after wake-up; SchedCV.v); "
-            "implementation: every fault site of the C13 menu leaves the four lists empty and a follow-up call returns; schedules of C07/C12 scenarios and random 3-4 thread pools of mixed object/metadata calls complete with nothing locked.",
+            "implementation: every fault site of the C13 menu (writes included) and every failing read of the data source leaves the four lists empty and a follow-up life cycle (store, delete, store, delete of the pid) returns; schedules of C07/C12 scenarios, a complete walk over the orders of the synchronisation steps of the wake-up / lock-order families, a preemption-bounded walk inside critical sections, and random 3-4 thread pools of mixed object/metadata calls complete with nothing locked.",
             "DESIGN.md section 6 C08, 12.2", "a thread blocked inside the kernel, a dead Manager process; Condition.notify() wakes at least one waiter if any waits"),
     "C12": ("Coq proof: reflective exhaustive exploration of all schedules of every metadata scenario by the proved explorer; reader clause as a separate boolean; P-sched correspondence",
             "lin_pairs: 275 pairs and 414 triples from 5 start states, every schedule; the 9 pairs / 54 triples of known12 are exactly retrieve_metadata racing a delete (FileNotFoundError where the sequential run says ValueError - both 'not found'), "
